@@ -97,7 +97,7 @@ pub fn decode(bytes: &[u8]) -> Option<Case> {
     let cfg = GenCfg { max_decls: 6, budget: 120, ..GenCfg::default() };
     let prog = gen_prog(&mut s, &cfg);
     let r = render(&prog);
-    let style = *s.pick(&[Style::Spaced, Style::Plain]);
+    let style = *s.pick(&[Style::Spaced, Style::Plain, Style::LeadingComments, Style::Commented]);
     let mut l = gen_layout(&r.toks, &mut s, style);
     let cands: Vec<(usize, Class)> = (0..=r.toks.len()).filter_map(|g| classify(&r.toks, g).map(|c| (g, c))).collect();
     // every class gets a fair share: pick the class first
@@ -255,19 +255,128 @@ impl Check for Positions {
     }
 }
 
+/// Metamorphic part: the proposals at a position after a history of edits equal the proposals at
+/// the same position in a freshly opened document with the same text (scope and position class are
+/// functions of the text alone). Histories on which the library-level incremental analysis itself
+/// diverges are C01's subject and are excluded here.
+pub struct AfterEdits;
+
+fn proposals(srv: &Srv, u: &Url, p: lsp::Pos) -> Result<Vec<(String, String)>, (String, String)> {
+    let doctx = srv.doctx.clone();
+    let params = CompletionParams { text_document_position: srv::tdp(u, p), work_done_progress_params: Default::default(), partial_result_params: Default::default(), context: None };
+    let items = nav::call("completion", || srv::block_on(crate::features::completion::propose(doctx, params)))?.unwrap_or_default();
+    let mut v: Vec<(String, String)> = items.iter().map(|i| (format!("{:?}", i.kind), i.label.clone())).collect();
+    v.sort();
+    Ok(v)
+}
+
+impl Check for AfterEdits {
+    fn part(&self) -> &'static str {
+        "completion-after-edits-equals-fresh"
+    }
+    fn max_len(&self) -> usize {
+        2500
+    }
+    fn run(&self, bytes: &[u8]) -> CaseResult {
+        use super::c01;
+        // the tail of the choice stream selects the history flavour and the cursor
+        let (case, flavour) = if bytes.first().map_or(false, |b| b % 2 == 0) { (c01::decode_model(bytes.get(1..).unwrap_or(&[])).0, "model-edits") } else { (c01::decode(bytes.get(1..).unwrap_or(&[])), "text-edits") };
+        let mut r = CaseResult::new(fnv(format!("{:?}{:?}", case.initial, case.history).as_bytes()) ^ 0xc16);
+        r.label(flavour);
+        if c01::run_history(&case, |_| {}).is_err() {
+            r.excluded.push("library-level-divergence(C01)".into());
+            return r;
+        }
+        let u = srv::default_uri();
+        let mut live = Srv::new(false);
+        live.open(&u, &case.initial);
+        let mut text = case.initial.clone();
+        let detail = |text: &str, extra: Value| json!({ "initial": case.initial, "history": case.history.iter().map(|b| b.iter().map(|e| json!({"range": [e.range.start, e.range.end], "insert": e.text})).collect::<Vec<_>>()).collect::<Vec<_>>(), "text": text, "extra": extra });
+        r.evals = 0;
+        for (k, batch) in case.history.iter().enumerate() {
+            let mut t2 = text.clone();
+            let mut changes = Vec::new();
+            for e in batch {
+                if !lsp::expressible(&t2, e.range.start) || !lsp::expressible(&t2, e.range.end) {
+                    r.excluded.push("edit-not-expressible-as-position".into());
+                    r.evals = r.evals.max(1);
+                    return r;
+                }
+                changes.push(srv::change_event(Some((lsp::pos_of(&t2, e.range.start), lsp::pos_of(&t2, e.range.end))), &e.text));
+                t2.replace_range(e.range.clone(), &e.text);
+            }
+            let whitespace_only = batch.iter().all(|e| e.text.trim().is_empty() && text.get(e.range.clone()).map_or(false, |d| d.trim().is_empty()));
+            live.change(&u, changes);
+            text = t2;
+            if let Err(sig) = live.settle() {
+                r.fail(sig, "the document broker dies", detail(&text, json!(null)));
+                return r;
+            }
+            let mut fresh = Srv::new(false);
+            fresh.open(&u, &text);
+            // cursors: behind the last edit, at statement starts and line starts
+            let mut offsets: Vec<usize> = Vec::new();
+            if let Some(e) = batch.last() {
+                offsets.push((e.range.start + e.text.len()).min(text.len()));
+            }
+            let toks = reflex::lex(&text);
+            for t in toks.iter().filter(|t| !t.is_comment()).step_by(1 + toks.len() / 6) {
+                offsets.push(t.range.start);
+            }
+            offsets.push(text.len());
+            for o in offsets {
+                let mut o = o;
+                while !lsp::expressible(&text, o) && o > 0 {
+                    o -= 1;
+                }
+                let p = lsp::pos_of(&text, o);
+                r.evals += 1;
+                let (a, b) = match (proposals(&live, &u, p), proposals(&fresh, &u, p)) {
+                    (Ok(a), Ok(b)) => (a, b),
+                    (Err((sig, what)), _) | (_, Err((sig, what))) => {
+                        r.fail(format!("{}|completion", sig), what, detail(&text, json!({ "cursor": [p.line, p.character] })));
+                        return r;
+                    }
+                };
+                if a != b {
+                    let only_live: Vec<_> = a.iter().filter(|x| !b.contains(x)).collect();
+                    let only_fresh: Vec<_> = b.iter().filter(|x| !a.contains(x)).collect();
+                    r.fail(
+                        "proposals-after-edit-differ-from-fresh",
+                        format!("after notification {} completion at {:?} proposes {:?} that a freshly opened document with the same text does not, and lacks {:?}", k + 1, p, only_live, only_fresh),
+                        detail(&text, json!({ "cursor": [p.line, p.character] })),
+                    );
+                    return r;
+                }
+            }
+            if whitespace_only {
+                r.label("whitespace-only-notification");
+            }
+        }
+        r.evals = r.evals.max(1);
+        r.nontrivial = !case.history.is_empty() && text.contains("proc");
+        r
+    }
+    fn describe(&self, bytes: &[u8]) -> Value {
+        let case = if bytes.first().map_or(false, |b| b % 2 == 0) { super::c01::decode_model(bytes.get(1..).unwrap_or(&[])).0 } else { super::c01::decode(bytes.get(1..).unwrap_or(&[])) };
+        super::c01::describe_case(&case)
+    }
+}
+
 pub const E2E: super::e2e::EndToEnd = super::e2e::EndToEnd { part: "end-to-end-binary-vs-handler", methods: &["textDocument/completion"] };
 
 pub fn checks() -> Vec<Box<dyn Check>> {
-    vec![Box::new(Positions), Box::new(E2E)]
+    vec![Box::new(Positions), Box::new(E2E), Box::new(AfterEdits)]
 }
 
 pub fn run(ctx: &Ctx) -> i32 {
     let mut parts = vec![crate::corpus_part(ctx, &checks()), run_pbt(ctx, &Positions, ctx.n(40_000, 600_000))];
     parts.push(run_pbt(ctx, &E2E, ctx.n(400, 8_000)));
+    parts.push(run_pbt(ctx, &AfterEdits, ctx.n(5_000, 80_000)));
     finish(
         ctx,
         parts,
-        "well-typed programs (layouts without comments) x one cursor position of a class derived from the token sites: top-level gap; start of a statement in a procedure body or block; start of a branch statement (behind `)` of if/while, behind else); end of a statement list (before the closing brace); behind `:=`; behind `(` of a call or condition; behind `:` of a parameter / variable declaration. Three quarters of the positions have whitespace between the previous token and the cursor, a quarter none (tight). The response is compared as sorted label lists per item kind: VARIABLE = parameters and locals of the enclosing procedure, FUNCTION = declared and predefined procedures (statement positions), STRUCT = declared types plus int (type positions), only declaration starters at top level, never a name local to another procedure; non-trivial = at least two procedures with different local names and a cursor behind the first declaration; distinct = distinct (text, cursor)",
+        "well-typed programs (half of the layouts with comments, none in the cursor gap) x one cursor position of a class derived from the token sites: top-level gap; start of a statement in a procedure body or block; start of a branch statement (behind `)` of if/while, behind else); end of a statement list (before the closing brace); behind `:=`; behind `(` of a call or condition; behind `:` of a parameter / variable declaration. Three quarters of the positions have whitespace between the previous token and the cursor, a quarter none (tight). The response is compared as sorted label lists per item kind: VARIABLE = parameters and locals of the enclosing procedure, FUNCTION = declared and predefined procedures (statement positions), STRUCT = declared types plus int (type positions), only declaration starters at top level, never a name local to another procedure; metamorphic part: after every notification of an edit history (C01's generators: text-level and model-level edits incl. whitespace-only ones and moved comment ends) the proposals at the edit, at token starts and at the end equal those of a freshly opened document with the same text; non-trivial = at least two procedures with different local names and a cursor behind the first declaration; distinct = distinct (text, cursor)",
         &[
             "keyword and snippet items are not constrained except at top level (declaration starters only)",
             "at expression positions (behind `:=`, `(`) only the variable set is constrained",
